@@ -70,6 +70,10 @@ def scenarios(tier):
     L.append((SC.scn("make-parent-takes-the-handed-back-token-n1", mw,
                      [{"name": "T0", "argv": ["redo", "--no-log", "x"], "env": {"MAKEFLAGS": ""}}, {"name": "T1", "argv": ["redo-ifchange", "b"]}],
                      visible=VIS, jobserver=1, limit=2, log_mode=True, no_cheatfds=True, make_player=1), 1 if q else 2))
+    L.append((SC.scn("make-failshared-n2", w["failshared"], ["redo-ifchange a b"], visible=VIS, jobserver=2, limit=2, may_fail=True,
+                     no_cheatfds=True, make_player=1), 1 if q else 2))
+    L.append((SC.scn("make-log-failshared-n2", w["failshared"], ["redo-ifchange a b"], visible=VIS, jobserver=2, limit=2, may_fail=True,
+                     no_cheatfds=True, log_mode=True), 0 if q else 1))
     # own jobserver: redo -jN creates the pipes and checks itself on exit
     L.append((SC.scn("own-fan3-j2", w["fan3"], ["redo --no-log -j2 top"], visible=VIS, limit=2), 1 if q else 2))
     L.append((SC.scn("own-fan3x2-j2", w["fan3x2"], ["redo --no-log -j2 t1 t2"], visible=VIS, limit=2), 1 if q else 2))
